@@ -21,7 +21,7 @@ NEAR_KEYWORDS = ["types", "defined", "but", "android", "fromage", "orx", "and_",
 PLAIN_IDS = ["user", "group", "doc", "folder", "org", "member", "viewer", "editor", "owner", "parent", "admin",
              "a", "b", "c", "x1", "_x", "__a__", "A", "Zed", "can_view", "can-edit", "a-", "a_b-c"]
 EXT_IDS = ["a/b", "a.b", "a.b/c", "_.a_/_b._", "a.bc/def", "x-1/y.z", "a/b/c"]
-COND_IDS = ["cond", "in_window", "is_valid", "c1", "_c", "x-y", "condX"]
+COND_IDS = ["cond", "in_window", "is_valid", "c1", "_c", "x-y", "condX", "Zone_check", "In_window"]
 PARAM_TYPES = ["bool", "string", "int", "uint", "double", "duration", "timestamp", "ipaddress"]
 TYPE_NUM = {"any": 1, "bool": 2, "string": 3, "int": 4, "uint": 5, "double": 6, "duration": 7, "timestamp": 8,
             "map": 9, "list": 10, "ipaddress": 11}
@@ -31,7 +31,8 @@ PLAIN_EXPRS = ["x < 100", "a == b", "x > 0 && y <= 10", "user.name == \"anne\"",
                "1.5e3 > x", "0x1F == n", "42u < m", "size(l) >= 1", "a-b == c"]
 HOSTILE_EXPRS = ["s == \"}\"", "s == 'a } b'", "s == \"\"\"tri}ple\"\"\"", "s == r\"raw\\n\"", "x < 1 // trailing } comment",
                  "a ==\n  b", "m == {\"k\": 1", "s == \"a\\\"b\"", "b == b\"bytes\"", "s == '''x\ny'''",
-                 "x  <   1", "s == \"esc\\u00e9\"", "a ==\tb", "s == R'''q}'''", "a // c1\n  && b // c2"]
+                 "x  <   1", "s == \"esc\\u00e9\"", "a ==\tb", "s == R'''q}'''", "a // c1\n  && b // c2",
+                 "a ==\n    b", "x > 0 &&\n      y <= 10 &&\n    z"]
 # what the parser keeps of an expression: hidden-channel // comments are dropped
 EXPR_EXPECTED = {"x < 1 // trailing } comment": "x < 1 ", "a // c1\n  && b // c2": "a \n  && b "}
 
@@ -496,7 +497,7 @@ def gen_wire_model(rng, modular=None, degenerate=0.0, p_this=0.25, max_types=4, 
     tnames = names.distinct(rng.randint(1, max_types))
     modules = modules or ["core", "wiki", "a"]
     files = files or ["core.fga", "z.fga", "a/b.fga", ""]
-    cnames = [c for c in COND_IDS[:4] if rng.random() < 0.4]
+    cnames = [c for c in COND_IDS[:4] + COND_IDS[7:] if rng.random() < 0.4]
     types = []
     for tn in tnames:
         rnames = names.distinct(rng.randint(0, max_rels))
